@@ -119,6 +119,7 @@ ConservativeLaw(r) ==
 (*   protected:    protected blocks' lines are reproduced                  *)
 ReflowLaw(r) ==
     IF r.htmlX # r.htmlY THEN "Reflow.meaning"
+    ELSE IF r.wordsOk # "yes" THEN "Reflow.words"
     ELSE IF r.z # r.y THEN "Reflow.idempotence"
     ELSE IF \E i \in DOMAIN r.lines : r.lines[i].len > r.L /\ r.lines[i].breakable > 0 THEN "Reflow.bound"
     ELSE IF r.protectedIn # r.protectedOut THEN "Reflow.protected"
